@@ -133,8 +133,9 @@ Definition step_ok (m1 m2 : nfm) (R : list rel) (x : rel) (s : sym) : bool :=
     end
   end.
 
-Definition closed (m1 m2 : nfm) (R : list rel) : bool :=
-  forallb (fun x => items_free (r_pend x) && forallb (step_ok m1 m2 R x) all_syms) R.
+(** [ss]: the symbols the parsers are ever given (all 257, or the 256 bytes when there is no end() function) *)
+Definition closed (ss : list sym) (m1 m2 : nfm) (R : list rel) : bool :=
+  forallb (fun x => items_free (r_pend x) && forallb (step_ok m1 m2 R x) ss) R.
 
 (** ** soundness *)
 Variable D : Type.
@@ -309,14 +310,15 @@ Definition run_eager (m1 : nfm) (K : nat) (md : emode) (input : list sym) (q1 : 
   end.
 Definition mode_items (md : emode) : list item := match md with EBoth => [] | ERet r => [IRet r] end.
 
+Variable ss : list sym.
 Variable m1 m2 : nfm.
 Variable R : list rel.
-Hypothesis HC : closed m1 m2 R = true.
+Hypothesis HC : closed ss m1 m2 R = true.
 
-Lemma closed_elem x : In x R -> items_free (r_pend x) = true /\ forall s, (s <= 256)%N -> step_ok m1 m2 R x s = true.
+Lemma closed_elem x : In x R -> items_free (r_pend x) = true /\ forall s, In s ss -> step_ok m1 m2 R x s = true.
 Proof.
   intros Hin. unfold closed in HC. rewrite forallb_forall in HC. specialize (HC x Hin).
-  apply andb_prop in HC as [A B]. split; auto. intros s Hs. rewrite forallb_forall in B. apply B. apply in_all_syms; auto.
+  apply andb_prop in HC as [A B]. split; auto. intros s Hs. rewrite forallb_forall in B. apply B. exact Hs.
 Qed.
 
 (** one step of a related pair in mode EBoth *)
@@ -335,7 +337,7 @@ Inductive step_case (x : rel) (s : sym) (x1 x2 : D) : Prop :=
     r_pend x ++ e1 = e2 ->
     (is_yield r = true -> In {| r_mode := EBoth; r_q1 := q1'; r_q2 := q2'; r_pend := [] |} R) -> step_case x s x1 x2.
 
-Lemma step_both x s x1 x2 s0 : In x R -> r_mode x = EBoth -> (s <= 256)%N -> replay (r_pend x) s0 x2 = Some x1 ->
+Lemma step_both x s x1 x2 s0 : In x R -> r_mode x = EBoth -> In s ss -> replay (r_pend x) s0 x2 = Some x1 ->
   evali (m1 (r_q1 x) s) s x1 <> None -> evali (m2 (r_q2 x) s) s x2 <> None -> step_case x s x1 x2.
 Proof.
   intros Hin Em Hs HP N1 N2. destruct (closed_elem x Hin) as [HF HSt]. specialize (HSt s Hs). unfold step_ok in HSt.
@@ -360,7 +362,7 @@ Proof.
     intros Hy. specialize (L3 Hy). apply HSt in L3. apply memr_in in L3. exact L3.
 Qed.
 
-Lemma step_ret x r s x1 x2 s0 : In x R -> r_mode x = ERet r -> (s <= 256)%N -> replay (r_pend x) s0 x2 = Some x1 ->
+Lemma step_ret x r s x1 x2 s0 : In x R -> r_mode x = ERet r -> In s ss -> replay (r_pend x) s0 x2 = Some x1 ->
   evali (m2 (r_q2 x) s) s x2 <> None ->
   exists q2', evali (m2 (r_q2 x) s) s x2 = Some (r_pend x, LRet r q2' false, x1) /\
               (is_yield r = true -> In {| r_mode := EBoth; r_q1 := r_q1 x; r_q2 := q2'; r_pend := [] |} R).
@@ -405,12 +407,12 @@ Lemma go_ret_yield_stay m s cont c q x es r q' x' : evali (m q s) s x = Some (es
   go m s cont c q x = match c with O => None | S c' => option_map (fun t => es ++ IRet r :: t) (go m s cont c' q' x') end.
 Proof. intros E Y. destruct c; cbn [go]; rewrite E, Y; reflexivity. Qed.
 
-Theorem bbisim_sound : forall K1 K2 input, (forall s, In s input -> (s <= 256)%N) -> related_runs K1 K2 input.
+Theorem bbisim_sound : forall K1 K2 input, (forall s, In s input -> In s ss) -> related_runs K1 K2 input.
 Proof.
   intros K1 K2. induction input as [|s rest IH]; intros Hs x Hin x1 x2 s0 HP tr1 tr2 H1 H2.
   - cbn [run] in H2. inversion H2; subst. cbn [app]. eexists; reflexivity.
-  - assert (Hrest : forall s', In s' rest -> (s' <= 256)%N) by (intros; apply Hs; right; auto).
-    specialize (IH Hrest). assert (Hs0 : (s <= 256)%N) by (apply Hs; left; auto).
+  - assert (Hrest : forall s', In s' rest -> In s' ss) by (intros; apply Hs; right; auto).
+    specialize (IH Hrest). assert (Hs0 : In s ss) by (apply Hs; left; auto).
     cbn [run] in H2.
     assert (G : forall c2 c1 x, In x R -> forall x1 x2 s0, replay (r_pend x) s0 x2 = Some x1 ->
        forall tr1 tr2, go_eager K1 s rest (r_mode x) c1 (r_q1 x) x1 = Some tr1 ->
